@@ -19,7 +19,8 @@ NAME = "overstatement"
 RULE = ("populations of 1-30 (CVR, MVR) pairs built with CVR.from_dict / CVR(...) / CVR.make_phantoms; 0-3 tally pools, any "
         "subset pooled, card-level pool flags, phantoms inside and outside pools (explicit and via make_phantoms), "
         "add_pool_contests on/off, MVRs equal / discrepant / lacking the contest / phantom, style on/off, "
-        "plurality (1-2 winners), super-majority (random share) and IRV (json) assorters, audit types POLLING / "
+        "plurality (1-2 winners), super-majority (shares on both sides of 1/2) and IRV (json) assorters, built through "
+        "make_all_assertions or by the direct constructor call without share_to_win (as the repo's tests do), audit types POLLING / "
         "CARD_COMPARISON / ONEAUDIT / unsupported, tally_pools argument absent / pool_contests dict / explicit list "
         "(missing or extra labels), explicit means and margins (grid in (-u, 2u), rarely >= 2u), thresholds on and off "
         "sample numbers or None, samples with and without repeats, truncated samples; plus the single-pair table "
@@ -67,7 +68,18 @@ def build(case):
     audit = Audit.from_dict({"quantile": 0.8, "error_rate_1": 0, "error_rate_2": 0, "reps": 10, "strata": strata})
     con = Contest.from_dict(_contest_dict(case))
     contests = {CID: con}
-    Assertion.make_all_assertions(contests)
+    if case.get("direct") and case["scf"] in ("PLURALITY", "SUPERMAJORITY"):
+        # the constructors called directly, the way tests/core/test_Assertion.py calls them: contest, winner, loser
+        # (and the test), WITHOUT repeating what the contest already says (share_to_win)
+        losers = [c for c in con.candidates if c not in con.winner]
+        if case["scf"] == "PLURALITY":
+            con.assertions = Assertion.make_plurality_assertions(contest=con, winner=list(con.winner), loser=losers,
+                                                                 test=con.test, estim=con.estim)
+        else:
+            con.assertions = Assertion.make_supermajority_assertion(contest=con, winner=con.winner[0], loser=losers,
+                                                                    test=con.test, estim=con.estim)
+    else:
+        Assertion.make_all_assertions(contests)
     names = sorted(con.assertions.keys())
     asn_name = names[case["asn"] % len(names)]
     asn = con.assertions[asn_name]
@@ -450,11 +462,9 @@ def oracle_c06(case, ir):
             return None                      # no margin (no card under audit)
         if not (v < 2 * u):
             return None                      # not the margin of any population (v <= 2u - 1)
-    # premises on the inputs: assorter values in [0,u]; supplied pool means in [0,u]
-    for x in f:
-        for a in (x["c_a"], x["m_a"]):
-            if not (-1e-12 <= a <= u + 1e-12):
-                return None
+    # every assorter of this group is one the library ships, built by the library's own constructors (through
+    # make_all_assertions or directly): that its values stay within its own bound is NOT a premise here -- if they do
+    # not, the data below leave [0,u] and that is reported.  Premise on the inputs: supplied pool means in [0,u]
     if case.get("means_override") is not None:
         for _k, m in case["means_override"]:
             if m == "nan" or not (0 <= Fraction(m) <= Fraction(u)):
@@ -475,6 +485,10 @@ def oracle_c06(case, ir):
             if r.get("err") == "KeyError" and case.get("means_override") is not None:
                 continue                      # supplied dict lacks a pool: no data handed to the test
             return {"what": f"mvrs_to_data ({key}) raised {r.get('err')}: {r.get('msg')}"}
+        if guard_type_error:
+            return {"what": f"{key}: sample_threshold is None under style-based sampling and a sampled CVR lists the contest, "
+                            f"yet mvrs_to_data handed {len(r['d'])} data to the test instead of raising (no threshold: "
+                            f"no card is known to be within it)"}
         if not _close(r["u"], expect_u) if not isinstance(r["u"], str) else True:
             return {"what": f"{key}: returned u={r['u']}, required {'2/(2 - v/u_assorter)' if comp else 'u_assorter'} = {expect_u}"}
         for j, x in enumerate(r["d"]):
@@ -483,6 +497,7 @@ def oracle_c06(case, ir):
         # which pairs contribute
         if comp:
             if us:
+                # whatever else the record is (phantom or not, pooled or not)
                 want = [i for i in idx if f[i]["c_hc"] and (use_all or f[i]["c_sn"] <= thr)]
             else:
                 want = list(idx)
@@ -560,6 +575,7 @@ IRV_CANDS = ["A", "B", "C", "D"]
 
 def _base(**kw):
     c = {"scf": "PLURALITY", "cands": PLUR_CANDS, "winner": ["Alice"], "asn": 0, "share": None, "irv_assertion": None,
+         "direct": False,
          "audit_type": "CARD_COMPARISON", "use_style": True, "n_strata": 1, "cards": 100, "max_cards": 100,
          "cvrs": [], "make_phantoms": None, "add_pool_contests": False, "sample_nums": [1], "mvrs": [],
          "set_means": False, "tally_pools_arg": None, "means_override": None, "margin_override": None, "margin_np": False,
@@ -674,7 +690,9 @@ def gen_one(rng):
     elif scf == "SUPERMAJORITY":
         case["cands"] = list(PLUR_CANDS)
         case["winner"] = ["Alice"]
-        case["share"] = rng.choice([0.5, 0.55, 0.6, 2 / 3, 0.75, 1.0, rng.uniform(0.3, 1.0), rng.uniform(0.5, 0.9)])
+        # shares on both sides of 1/2 (below 1/2: thresholds of primaries, explicitly allowed by the docstring)
+        case["share"] = rng.choice([0.5, 0.55, 0.6, 2 / 3, 0.75, 1.0, rng.uniform(0.3, 1.0), rng.uniform(0.5, 0.9),
+                                    0.25, 0.3, 1 / 3, 0.4, 0.45, rng.uniform(0.15, 0.5)])
         votes = lambda: _plur_votes(rng, PLUR_CANDS)
     else:
         case["cands"] = list(IRV_CANDS)
@@ -688,6 +706,7 @@ def gen_one(rng):
             case["irv_assertion"] = {"winner": w, "loser": l, "assertion_type": "IRV_ELIMINATION", "already_eliminated": elim}
         votes = lambda: _irv_votes(rng, IRV_CANDS)
     case["asn"] = rng.randint(0, 3)
+    case["direct"] = scf != "IRV" and rng.chance(0.4)     # assertion built by the direct constructor call
     case["use_style"] = rng.chance(0.6)
     r = rng.random()
     case["audit_type"] = ("CARD_COMPARISON" if r < 0.4 else "ONEAUDIT" if r < 0.82 else "POLLING" if r < 0.97 else "BATCH_COMPARISON")
